@@ -117,6 +117,24 @@ def pattern_method(prog, rep, qname, raw_attrs, rule="PAT", allow_result_arith=T
                 "arithmetic on raw weights reaches a decision: " + "; ".join(v["sinks"][:3]), detail=v["sinks"])
 
 
+PLAIN_HEADS = {"param", "const", "sub", "binop", "tuple", "list", "attr", "self", "slice", "unop", "cmp", "extref", "star", "*"}
+
+
+def plain_term(t):
+    """an expression over the arguments / attributes themselves (size[0], variances[1] + 1, self.p ...). A deviation found in such a term is a decided
+    one; a term that went through branches, containers, helpers or loops is a form a rule written for the plain spelling does not read"""
+    if t is None:
+        return True
+    for x in walk(t):
+        if isinstance(x, tuple) and x and isinstance(x[0], str) and x[0] not in PLAIN_HEADS:
+            if x[0] == "ext" and len(x) == 4 and x[1] in ("len", "int", "float", "numpy.random.default_rng"):
+                continue
+            if len(x) >= 2 and all(not isinstance(y, tuple) for y in x):       # a leaf written as a tuple of atoms
+                continue
+            return False
+    return True
+
+
 def inline_helpers(prog, module, keep=(), also=()):
     """SYM inlining policy: private helpers of `module` (leading underscore) and the functions named in `also` are
     expanded at their call sites, so that extracting a helper does not hide what a function computes"""
@@ -309,7 +327,12 @@ def wrapper_predicate(rep, prog, qname, wrapped, param, rule="WRAP", exc="ValueE
     calls = [c for c in S.select("call", qname=f.qname) if c.target == wrapped]
     good = [c for c in calls if c.args and derives_patternwise(c.args[0], param)]
     if not good:
-        rep.bad(rule + ".call", fwhere(f), "%s does not call %s on its argument" % (f.name, wrapped.split(".")[-1]))
+        decides = any(isinstance(x, (ast.If, ast.For, ast.While, ast.IfExp, ast.Call, ast.Compare)) for x in ast.walk(f.node))
+        if calls or not decides:
+            rep.bad(rule + ".call", fwhere(f), "%s does not call %s on its argument" % (f.name, wrapped.split(".")[-1]))
+        else:
+            # the predicate is computed in another way (a search of its own): not the wrapper these rules read
+            rep.unk(rule + ".call", fwhere(f), "%s does not call %s at all: it decides the question by a computation of its own, which is not read" % (f.name, wrapped.split(".")[-1]))
         return S
     c = good[0]
     tries = getattr(c, "in_try", [])
